@@ -171,7 +171,18 @@ func (f *FibStrategyTree) FindStrategyEnc(name enc.Name) enc.Name {
 func (f *FibStrategyTree) InsertNextHopEnc(name enc.Name, nexthop uint64, cost uint64) {
 	f.fibStrategyRWMutex.Lock()
 	defer f.fibStrategyRWMutex.Unlock()
+	f.insertNextHop(name, nexthop, cost)
+}
 
+// batchUpdate applies several nexthop updates under one write lock.
+func (f *FibStrategyTree) batchUpdate(fn func(ops fibBatchOps)) {
+	f.fibStrategyRWMutex.Lock()
+	defer f.fibStrategyRWMutex.Unlock()
+	fn(f)
+}
+
+// insertNextHop is InsertNextHopEnc without locking.
+func (f *FibStrategyTree) insertNextHop(name enc.Name, nexthop uint64, cost uint64) {
 	name = name.Clone()
 	entry := f.fillTreeToPrefixEnc(name)
 	if entry.name == nil {
@@ -196,7 +207,11 @@ func (f *FibStrategyTree) InsertNextHopEnc(name enc.Name, nexthop uint64, cost u
 func (f *FibStrategyTree) ClearNextHopsEnc(name enc.Name) {
 	f.fibStrategyRWMutex.Lock()
 	defer f.fibStrategyRWMutex.Unlock()
+	f.clearNextHops(name)
+}
 
+// clearNextHops is ClearNextHopsEnc without locking.
+func (f *FibStrategyTree) clearNextHops(name enc.Name) {
 	if name == nil {
 		return // In some weird case, when RibEntry.updateNexthops() is called, the name becomes nil.
 	}
